@@ -30,7 +30,9 @@ CONSTANTS
   CustomOps2, CustomOps3,      \* user matrices for d = 2 / d = 3 targets
   Kraus1, Kraus2, Povm1, Povm2,
   Families,    \* enabled action families (strings)
-  MaxDepth,    \* history length bound
+  MaxDepth,    \* number of freely chosen steps of a behaviour (after the script, if any)
+  Scripts,     \* set of scripted prefixes: sequences of partial step records that must be taken first
+  Focus,       \* families allowed for the LAST free step ({} = any): used by the scripted cover
   Thin         \* TRUE: pick one random candidate per parameter (simulation), FALSE: all
 
 VARIABLES
@@ -42,9 +44,11 @@ VARIABLES
   ncomp,    \* number of composites created so far
   contr,    \* automatic contraction switch
   known,    \* [1..NSub -> BOOLEAN]  Fock cutoff pinned to the model dimension by resize
-  hist      \* log of the behaviour (sequence of records)
+  hist,     \* log of the behaviour (sequence of records)
+  script,   \* scripted steps still to be taken (partial records; see Scripts)
+  free      \* freely chosen steps still allowed
 
-vars == <<ens, alive, blk, bkind, cid, ncomp, contr, known, hist>>
+vars == <<ens, alive, blk, bkind, cid, ncomp, contr, known, hist, script, free>>
 phys == <<ens, alive>>
 
 Subs == 1..NSub
@@ -58,7 +62,15 @@ FockOf(e) == CHOOSE i \in EnvMembers(e) : Kind[i] = "F"
 PolOf(e)  == CHOOSE i \in EnvMembers(e) : Kind[i] = "P"
 
 Pick(S) == IF Thin /\ S # {} THEN {RandomElement(S)} ELSE S
-On(f) == f \in Families
+\* A behaviour first follows its script (each scripted step is an ordinary action of this
+\* specification whose log record must agree with the scripted partial record), then takes
+\* `free` steps of its own choice, the last of which may be restricted to the Focus families.
+Scripted == script # <<>>
+Act(a) == IF Scripted THEN Head(script).a = a ELSE TRUE
+Matches(p, r) == \A k \in DOMAIN p : k \in DOMAIN r /\ r[k] = p[k]
+On(f) == IF Scripted THEN TRUE
+         ELSE /\ f \in Families
+              /\ IF free = 1 /\ Focus # {} THEN f \in Focus ELSE TRUE
 
 BlockOf(i) == {j \in Subs : alive[j] /\ blk[j] = blk[i]}
 Min(S) == CHOOSE x \in S : \A y \in S : x <= y
@@ -71,8 +83,11 @@ Arr(S, n) == IF n = 0 THEN {<<>>}
              ELSE UNION {{<<x>> \o t : t \in Arr(S \ {x}, n-1)} : x \in S}
 Range(s) == {s[j] : j \in 1..Len(s)}
 
-Log(r) == hist' = Append(hist, r @@ [post |-> ens', al |-> alive', pb |-> blk', pk |-> bkind'])
-Depth == Len(hist) < MaxDepth
+Log(r) == /\ IF Scripted THEN Matches(Head(script), r) ELSE TRUE
+          /\ hist' = Append(hist, r @@ [post |-> ens', al |-> alive', pb |-> blk', pk |-> bkind'])
+          /\ script' = IF Scripted THEN Tail(script) ELSE script
+          /\ free' = IF Scripted THEN free ELSE free - 1
+Depth == Scripted \/ free > 0
 
 \* merge the blocks of all subsystems in S into one block of kind k
 MergeBlocks(S, k) ==
@@ -117,7 +132,7 @@ RenormalisingOrUnitary(i, g) == TRUE
 (* Single-subsystem operation                                              *)
 (***************************************************************************)
 Op1 ==
-  /\ On("op1") /\ Depth
+  /\ On("op1") /\ Depth /\ Act("op1")
   /\ \E i \in Pick({j \in Subs : alive[j]}) :
      \E g \in Pick({h \in GatesFor(i) : OpFor(i, h).d = Dim[i] /\ StaysInModel(i, h)}) :
        LET new == EnsApply(OpFor(i, g).m, <<i>>, ens) IN
@@ -146,7 +161,7 @@ CompTargets(g) ==
       /\ SameComposite(Range(T))
       /\ IsBS(g) => (Dim[T[1]] = 3 /\ Dim[T[2]] = 3 /\ TotalAtMost2(T[1], T[2]))}
 OpN ==
-  /\ On("opn") /\ Depth
+  /\ On("opn") /\ Depth /\ Act("opn")
   /\ \E g \in Pick({h \in CompGates : CompTargets(h) # {}}) :
      \E T \in Pick(CompTargets(g)) :
        /\ ens' = Reduce(EnsApply(Gate(g).m, T, ens))
@@ -167,7 +182,7 @@ KronTargets(gs) ==
                                /\ gs[j] \notin {"Cre", "Ann"}
       /\ SameComposite(Range(T))}
 OpKron ==
-  /\ On("opk") /\ Depth
+  /\ On("opk") /\ Depth /\ Act("opk")
   /\ \E gs \in Pick({h \in KronOps : KronTargets(h) # {}}) :
      \E T \in Pick(KronTargets(gs)) :
        LET new == EnsApply(KronMat(gs, T), T, ens) IN
@@ -190,7 +205,7 @@ KrausTargets(set, entry) ==
       /\ (entry = "env") => (\A j \in 1..Len(T) : EntryOK("env", T[j]) /\ EnvIdx[T[j]] = EnvIdx[T[1]])
       /\ (entry = "ce")  => SameComposite(Range(T))}
 ApplyKraus ==
-  /\ On("kraus") /\ Depth
+  /\ On("kraus") /\ Depth /\ Act("kraus")
   /\ \E c \in Pick(Kraus1 \cup Kraus2) : \E entry \in Pick(Entries) :
      \E T \in Pick(KrausTargets(KrausSet(c), entry)) :
        /\ ens' = Reduce(EnsKraus(KrausSet(c).ks, T, ens))
@@ -220,7 +235,7 @@ MeasureRequests ==
   \cup {<<"ce", T>> : T \in {U \in Arr({i \in Subs : alive[i]}, 1) \cup Arr({i \in Subs : alive[i]}, 2)
                                 : SameComposite(Range(U))}}
 Measure ==
-  /\ On("measure") /\ Depth
+  /\ On("measure") /\ Depth /\ Act("measure")
   /\ \E rq \in Pick(MeasureRequests) :
      \E sep \in Pick(BOOLEAN) : \E destr \in Pick(BOOLEAN) :
        LET S  == Range(rq[2])
@@ -237,7 +252,7 @@ Measure ==
                        m |-> M, out |-> LevelsOf(o, M), wt |-> wt, rej |-> FALSE])
 \* env.measure() without arguments: both members
 MeasureEnvAll ==
-  /\ On("measure") /\ Depth
+  /\ On("measure") /\ Depth /\ Act("measure")
   /\ \E e \in Pick({x \in 1..NEnv : \A i \in EnvMembers(x) : alive[i]}) : \E destr \in Pick(BOOLEAN) :
        LET M  == SortSet(EnvMembers(e))
            wt == WeightTable(ens, M)
@@ -263,7 +278,7 @@ PovmWeightsFrom(ks, T, j) ==
 \* specification (pm = TRUE: partners measured).  Non-destructive mode never destroys anything.
 PovmPartners(T) == {Partner(i) : i \in {j \in Range(T) : HasPartner(j) /\ alive[Partner(j)]}} \ Range(T)
 MeasurePOVM ==
-  /\ On("povm") /\ Depth
+  /\ On("povm") /\ Depth /\ Act("povm")
   /\ \E c \in Pick(Povm1 \cup Povm2) : \E entry \in Pick(Entries) :
      \E T \in Pick(KrausTargets(PovmSet(c), entry)) : \E destr \in Pick(BOOLEAN) :
      \E pm \in Pick(IF PovmPartners(T) # {} THEN BOOLEAN ELSE {FALSE}) :
@@ -294,24 +309,24 @@ MeasurePOVM ==
 EnvAllOwn(e) == \A i \in EnvMembers(e) : alive[i] /\ bkind[i] = "own"
 EnvIsBlock(e) == \A i \in EnvMembers(e) : alive[i] /\ bkind[i] = "env"
 EnvCombine ==
-  /\ On("struct") /\ Depth
+  /\ On("struct") /\ Depth /\ Act("envcombine")
   /\ \E e \in Pick({x \in 1..NEnv : EnvAllOwn(x)}) :
        /\ MergeBlocks(EnvMembers(e), "env")
        /\ UNCHANGED <<ens, alive, cid, ncomp, contr, known>>
        /\ Log([a |-> "envcombine", en |-> "env", t |-> <<FockOf(e)>>, rej |-> FALSE])
 EnvReorder ==
-  /\ On("struct") /\ Depth
+  /\ On("struct") /\ Depth /\ Act("envreorder")
   /\ \E e \in Pick({x \in 1..NEnv : EnvIsBlock(x) \/ EnvAllOwn(x)}) :
      \E T \in Pick(Arr(EnvMembers(e), 1) \cup Arr(EnvMembers(e), 2)) :
        /\ UNCHANGED <<ens, alive, blk, bkind, cid, ncomp, contr, known>>
        /\ Log([a |-> "envreorder", en |-> "env", t |-> T, rej |-> FALSE])
 Expand ==
-  /\ On("struct") /\ Depth
+  /\ On("struct") /\ Depth /\ Act("expand")
   /\ \E i \in Pick({j \in Subs : alive[j]}) : \E entry \in Pick({en \in Entries : EntryOK(en, i)}) :
        /\ UNCHANGED <<ens, alive, blk, bkind, cid, ncomp, contr, known>>
        /\ Log([a |-> "expand", en |-> entry, t |-> <<i>>, rej |-> FALSE])
 Contract ==
-  /\ On("struct") /\ Depth
+  /\ On("struct") /\ Depth /\ Act("contract")
   /\ \E i \in Pick({j \in Subs : alive[j]}) : \E entry \in Pick({"sub", "env"} \cap {en \in Entries : EntryOK(en, i)}) :
      \E final \in Pick({"L", "V"}) :
        /\ UNCHANGED <<ens, alive, blk, bkind, cid, ncomp, contr, known>>
@@ -319,13 +334,13 @@ Contract ==
 CETargets(maxn) ==
   UNION {{T \in Arr({i \in Subs : alive[i]}, n) : SameComposite(Range(T))} : n \in 1..maxn}
 CECombine ==
-  /\ On("struct") /\ Depth
+  /\ On("struct") /\ Depth /\ Act("cecombine")
   /\ \E T \in Pick(CETargets(3)) :
        /\ MergeBlocks(Range(T), "ps")
        /\ UNCHANGED <<ens, alive, cid, ncomp, contr, known>>
        /\ Log([a |-> "cecombine", en |-> "ce", t |-> T, rej |-> FALSE])
 CEReorder ==
-  /\ On("struct") /\ Depth
+  /\ On("struct") /\ Depth /\ Act("cereorder")
   /\ \E T \in Pick(CETargets(2)) :
        /\ MergeBlocks(Range(T), "ps")
        /\ UNCHANGED <<ens, alive, cid, ncomp, contr, known>>
@@ -336,20 +351,20 @@ TraceOutTargets(entry) ==
     [] entry = "env" -> UNION {Arr({i \in EnvMembers(e) : EntryOK("env", i)}, n) : e \in 1..NEnv, n \in 1..2}
     [] entry = "ce"  -> CETargets(2)
 TraceOut ==
-  /\ On("trace") /\ Depth
+  /\ On("trace") /\ Depth /\ Act("traceout")
   /\ \E entry \in Pick(Entries) : \E T \in Pick(TraceOutTargets(entry)) :
        /\ IF Len(T) > 1 THEN MergeBlocks(Range(T), MergeKind(Range(T), entry)) ELSE UNCHANGED <<blk, bkind>>
        /\ UNCHANGED <<ens, alive, cid, ncomp, contr, known>>
        /\ Log([a |-> "traceout", en |-> entry, t |-> T, red |-> ReducedBag(ens, T), rej |-> FALSE])
 SetContraction ==
-  /\ On("config") /\ Depth
+  /\ On("config") /\ Depth /\ Act("setcontraction")
   /\ \E b \in Pick(BOOLEAN) :
        /\ contr' = b
        /\ UNCHANGED <<ens, alive, blk, bkind, cid, ncomp, known>>
        /\ Log([a |-> "setcontraction", en |-> "cfg", b |-> b, rej |-> FALSE])
 \* new composite envelope from free members F and existing composites G (merging them)
 NewComposite ==
-  /\ On("composite") /\ Depth
+  /\ On("composite") /\ Depth /\ Act("newcomposite")
   /\ \E F \in Pick(SUBSET {m \in Members : cid[m] = 0 /\ \A i \in SubsOfMem(m) : alive[i]}) :
      \E G \in Pick(SUBSET (1..ncomp \cap {cid[m] : m \in Members})) :
        /\ F \cup G # {}
@@ -363,7 +378,7 @@ NewComposite ==
 (* Fock cutoff                                                             *)
 (***************************************************************************)
 Resize ==
-  /\ On("resize") /\ Depth
+  /\ On("resize") /\ Depth /\ Act("resize")
   /\ \E i \in Pick({j \in Subs : alive[j] /\ Kind[j] = "F"}) : \E n \in Pick(0..Dim[i]+1) :
      \E entry \in Pick({en \in Entries : EntryOK(en, i)}) :
        LET ok == n >= 1 /\ TopLevel(ens, i) < n IN
@@ -394,7 +409,7 @@ InvalidCases ==
   \cup PerEntry("use_destroyed_kraus", Entries, DeadEntryOK)
   \cup PerEntry("use_destroyed_povm", Entries, DeadEntryOK)
 Invalid ==
-  /\ On("invalid") /\ Depth
+  /\ On("invalid") /\ Depth /\ Act("invalid")
   /\ \E cs \in Pick({x \in InvalidCases : x[1] = "op_outside" =>
                         (x[3][1] # x[3][2] /\ cid[Mem(x[3][1])] # cid[Mem(x[3][2])])}) :
        /\ UNCHANGED <<ens, alive, blk, bkind, cid, ncomp, contr, known>>
@@ -413,6 +428,8 @@ Init ==
   /\ ncomp = 0
   /\ contr = TRUE
   /\ known = [i \in Subs |-> FALSE]
+  /\ script \in Scripts
+  /\ free = MaxDepth
 
 Next ==
   \/ Op1 \/ OpN \/ OpKron \/ ApplyKraus \/ Measure \/ MeasureEnvAll \/ MeasurePOVM
